@@ -100,10 +100,9 @@ func init() {
 
 func init() {
 	Registry["C07"] = func(c *Ctx) (int, error) {
+		// three values per schema in both tiers; the thorough tier has the larger schema universe (depth-2 shapes, 150
+		// pseudo-random and 240 random records) - with every value its case generation alone exceeded 20 minutes
 		vm := `"few"`
-		if c.Tier == "thorough" {
-			vm = `"all"`
-		}
 		return RunWire(c, &WireSpec{GenModule: "Gen_Wire", GenConsts: map[string]string{"OptMode": `"default"`, "ValMode": vm, "Muts": `"layout"`},
 			GenInvs: []string{"SizeIsLen", "LayoutLen", "DecTotal", "Export"},
 			Op:      "corrupt", JudgeProp: "C07", DevProps: []string{"C07"}, Level: "model_checking",
